@@ -71,15 +71,15 @@ void h_column_dfs(void) {
   in_Glu.xsup = in_xsup; in_Glu.xsup_end = in_xsup_end; in_Glu.supno = in_supno; in_Glu.lsub = in_lsub; in_Glu.xlsub = in_xlsub; in_Glu.xlsub_end = in_xlsub_end;
   in_Glu.nzlmax = LC; in_Glu.dynamic_snode_bound = in_dyn ? YES : NO;
 
-  /* variants split the runs by the number DEPTH = jcol - fstcol of finished panel columns the dfs can visit (bounds of the dfs loops differ) */
-#if DEPTH == 0
-  in_fstcol = in_jcol;
-#else
-  __CPROVER_assume(in_jcol - in_fstcol == DEPTH || (DEPTH == M - 2 && in_jcol - in_fstcol >= DEPTH));
-#endif
   /* ---------- well-formed pre-state ---------- */
   /* a regular panel never starts at column 0 (SRC/p?gstrf_thread.c: jcolm1 = jcol-1 is read); jcol is a column of the panel starting at fstcol */
   __CPROVER_assume(1 <= in_fstcol && in_fstcol <= in_jcol && in_jcol < M);
+  /* variants split the runs by the number DEPTH = jcol - fstcol of finished panel columns the dfs can visit (the bounds of the dfs loops differ) */
+#if DEPTH == 0
+  __CPROVER_assume(in_fstcol == in_jcol);
+#else
+  __CPROVER_assume(in_jcol - in_fstcol == DEPTH || (DEPTH == M - 2 && in_jcol - in_fstcol >= DEPTH));
+#endif
   __CPROVER_assume(in_memerr > 0);
   /* supernode counter: the columns < jcol.. are numbered, at most n-1 supernodes exist besides the one jcol may open */
   __CPROVER_assume(0 <= in_Glu.nsuper && in_Glu.nsuper <= M - 2);
